@@ -18,7 +18,7 @@ import (
 )
 
 func init() {
-	register("C12", "Decides the capture-filter property exhaustively over the equivalence classes its programs can distinguish. (R12.1) The five classic-BPF programs are extracted from the source on every run: the four bpf.RawInstruction tables from the syntax tree (constants evaluated by go/types) and the []bpf.Instruction literal handed to bpf.Assemble from go/ssa, its four Val operands kept symbolic; every program must decode, have forward in-range jumps and end in a return. (R12.2) The symbolic operands originate from BigEndian.Uint32 of the configured source/destination address and the widened ports, compared at the matching header offsets, and the generator refuses non-IPv4 configurations before assembling. (R12.3) Each program is run by the checker's own cBPF interpreter on every frame of the class product (ethertype, protocol/next header, IHL 0..15, fragment field, per-byte address/port mismatches, all 256 TCP flag bytes, every frame length at each load threshold ±1, several address/port configurations at sign and endianness boundaries) and must agree with the reference predicate transcribed from the property statement. (R12.4) getClassicBPFFilter maps every filter type to its program; at every SetPacketFilter call site the installed program accepts every reply form the driver's matcher (or the SACK handshake) can accept, with Src bound to the target and Dst to the local endpoint. (R12.5) drop-all is attached before the drain and the real filter after it. Trusts: kernel cBPF semantics as documented, bpf.Assemble being a faithful assembler. Darwin /dev/bpf and Windows filters are outside the claim. Program tables assembled at package initialisation from a literal []bpf.Instruction (directly or through a helper that hands its argument to bpf.Assemble) are read in symbolic form. Every success path of a filter type in getClassicBPFFilter hands out the same program.", runC12)
+	register("C12", "Decides the capture-filter property exhaustively over the equivalence classes its programs can distinguish. (R12.1) The five classic-BPF programs are extracted from the source on every run: the four bpf.RawInstruction tables from the syntax tree (constants evaluated by go/types) and the []bpf.Instruction literal handed to bpf.Assemble from go/ssa, its four Val operands kept symbolic; every program must decode, have forward in-range jumps and end in a return. (R12.2) The symbolic operands originate from BigEndian.Uint32 of the configured source/destination address and the widened ports, compared at the matching header offsets, and the generator refuses non-IPv4 configurations before assembling. (R12.3) Each program is run by the checker's own cBPF interpreter on every frame of the class product (ethertype, protocol/next header, IHL 0..15, fragment field, per-byte address/port mismatches, all 256 TCP flag bytes, every frame length at each load threshold ±1, several address/port configurations at sign and endianness boundaries) and must agree with the reference predicate transcribed from the property statement. (R12.4) getClassicBPFFilter maps every filter type to its program; at every SetPacketFilter call site the installed program accepts every reply form the driver's matcher (or the SACK handshake) can accept, with Src bound to the target and Dst to the local endpoint. (R12.5) drop-all is attached before the drain and the real filter after it. Trusts: kernel cBPF semantics as documented, bpf.Assemble being a faithful assembler. Darwin /dev/bpf and Windows filters are outside the claim. Program tables assembled at package initialisation from a literal []bpf.Instruction (directly or through a helper that hands its argument to bpf.Assemble) are read in symbolic form. Every success path of a filter type in getClassicBPFFilter hands out the same program. The IPv4-only guard must ask Is4 of the address whose bytes go into the program (not of its unmapped form).", runC12)
 }
 
 type filterCfg struct {
